@@ -58,9 +58,10 @@ class C20:
             if isinstance(n, ast.Assign) and isinstance(n.targets[0], ast.Name):
                 defs.setdefault(n.targets[0].id, []).append(n)
         rets = [n for n in ctx.own_nodes(f) if isinstance(n, ast.Return) and n.value is not None]
-        good = len(rets) == 1 and isinstance(rets[0].value, ast.Name)
+        # one result variable, returned at the end or early from a guard clause
+        good = bool(rets) and all(isinstance(r.value, ast.Name) for r in rets) and len({r.value.id for r in rets}) == 1
         rv = rets[0].value.id if good else None
-        rep.check("C20.S1", "pre_sync|return", f, good, "single `return %s`" % rv, "pre_sync no longer has the single-result shape (cannot decide the gate)")
+        rep.check("C20.S1", "pre_sync|return", f, good, "every return is `return %s`" % rv, "pre_sync no longer has the single-result shape (cannot decide the gate)")
         if not good:
             return
         assigns = defs.get(rv, [])
@@ -374,5 +375,7 @@ def run(ctx: Ctx, rep: Report, tier: str):
              "listing succeeding", 1)
     section(rep, lambda: remote_listing_independent_of_local(ctx, rep, "C20.S10"))
     from rules.decisions import decision_table, table_sites
-    rep.rule("C20.S11", "decision table of the on-demand gate: every action site of SmartSyncManager.pre_sync is reached under exactly the recorded path condition", table_sites("C20"))
-    section(rep, lambda: decision_table(ctx, rep, "C20.S11", "C20"))
+    rep.rule("C20.DT", "decision table (rules/decisions.json) of the on-demand layer (smart sync manager, state, cloud sync entry points): for every function and every action shape (an impure call with the parameters it passes, a store to an "
+             "attribute or item, a delete, a returned constant, a yield, a raise) the set of states - over the function's guard atoms - in which the action is taken "
+             "equals the recorded one; compared as canonical decision diagrams, so any equivalent respelling of the guards is the same table", table_sites("C20"))
+    section(rep, lambda: decision_table(ctx, rep, "C20.DT", "C20"))
